@@ -24,6 +24,9 @@ pub struct Case {
     pub pipefail: bool,
     /// BRUSH_VERIF_PAUSES value ("" = none)
     pub pauses: String,
+    /// value of $? right before the command under test
+    #[serde(default)]
+    pub prev: u8,
 }
 
 const FUNCS: &str = r#"pg() { gen "$1"; }
@@ -140,7 +143,9 @@ impl Case {
                     _ => "; printf '\\n \\n'",
                 };
                 let exit = if st != 0 { format!("; exit {st}") } else { String::new() };
-                s.push_str(&format!("x=$( {}{}{} )\necho \"status=$?\"\nprintf '%s' \"$x\" | sink\necho \"len=${{#x}}\"\n", stages.join(" | "), tail, exit));
+                s.push_str(&format!("( exit {} )\nx=$( {}{}{} )\necho \"status=$?\"\nprintf '%s' \"$x\" | sink\necho \"len=${{#x}}\"\n", self.prev, stages.join(" | "), tail, exit));
+                // the same substitution again: its status must be reported again
+                s.push_str(&format!("y=$( {}{} )\necho \"again=$? ${{#y}}\"\n", stages.join(" | "), if st != 0 { format!("; exit {st}") } else { String::new() }));
             }
             "read-shared" => {
                 // several readers share one descriptor: each `read` takes exactly one line
@@ -148,6 +153,7 @@ impl Case {
                 s.push_str(&format!("{} | {{ IFS= read -r a; echo \"a=${{#a}}\"; {} ; }}\necho \"PS:${{PIPESTATUS[*]}} $?\"\n", self.producer_text(0), self.filter_text(self.filters.first().map(|x| x.as_str()).unwrap_or("cat"), 0) + " | sink"));
             }
             _ => {
+                s.push_str(&format!("( exit {} )\n", self.prev));
                 s.push_str(&self.pipeline());
                 s.push('\n');
                 if self.early_exit() {
@@ -267,6 +273,9 @@ impl Layer for Pipes {
         if c.pipefail {
             labels.push("pipefail".into());
         }
+        if c.prev != 0 && c.statuses.first().copied().unwrap_or(0) == c.prev {
+            labels.push("status-equals-previous-status".into());
+        }
         let mut kinds: Vec<&str> = vec![c.producer.as_str(), c.consumer.as_str()];
         kinds.extend(c.filters.iter().map(|s| s.as_str()));
         if kinds.iter().any(|k| is_compound(k)) {
@@ -334,8 +343,9 @@ pub fn strategy(ctx: &Ctx) -> BoxedStrategy<Case> {
         proptest::collection::vec(prop_oneof![3 => Just(0u8), 1 => Just(3u8), 1 => Just(1u8)], 4),
         proptest::bool::weighted(0.3),
         pause,
+        prop_oneof![2 => Just(0u8), 1 => Just(1u8), 1 => Just(3u8)],
     )
-        .prop_map(|(kind, size, producer, filters, consumer, statuses, pipefail, pauses)| {
+        .prop_map(|(kind, size, producer, filters, consumer, statuses, pipefail, pauses, prev)| {
             let mut size = size;
             // shell-loop stages are slow: keep their payloads moderate
             let slowish = producer == "builtin-loop" || filters.iter().any(|f| f.contains("while-read") || *f == "slow") || consumer == "count-lines";
@@ -347,7 +357,7 @@ pub fn strategy(ctx: &Ctx) -> BoxedStrategy<Case> {
             }
             // with an early-exit consumer the upstream statuses (hence $? under pipefail) depend on timing in bash too
             let pipefail = pipefail && !matches!(consumer, "head-early" | "read-one-early");
-            Case { kind: kind.to_string(), size, producer: producer.to_string(), filters: filters.into_iter().map(String::from).collect(), consumer: consumer.to_string(), statuses, pipefail, pauses }
+            Case { kind: kind.to_string(), size, producer: producer.to_string(), filters: filters.into_iter().map(String::from).collect(), consumer: consumer.to_string(), statuses, pipefail, pauses, prev }
         })
         .boxed()
 }
@@ -357,7 +367,7 @@ pub fn run(run: &mut PropRun, ctx: &Ctx) {
                 while-read loop, function with while-read loop, tr}, consumer in {checksumming sink (external, in a group, subshell or function), line-counting while-read loop, wc, early-exiting \
                 head, early-exiting read, read-one-line-then-sink}; payload sizes 0, small, just below / at / just above 64 KiB, 66-300 KB and 1 MiB (quick) / 4 MiB (thorough); forced exit \
                 statuses per stage; pipefail on/off; stage-start schedules forced through the pause points (after each stage spawn, before the wait, at the command-substitution reader); also \
-                $( ) around such pipelines (trailing-newline variants, status) and several `read`s sharing one descriptor; oracle: differential vs bash 5.2.15 on stdout (length and checksum of \
+                $( ) around such pipelines (trailing-newline variants, status, evaluated twice in a row and after a command that left 0, 1 or 3 in $?) and several `read`s sharing one descriptor; oracle: differential vs bash 5.2.15 on stdout (length and checksum of \
                 what arrived, PIPESTATUS, $?) and exit status; a hang is reported only if bash needed < 1/20 of the limit and brush exceeded the limit three times; non-trivial = payload >= 64 KiB, a \
                 forced schedule, or an early-exit consumer"
         .into();
